@@ -694,3 +694,57 @@ V("c17-rw-doi-comprehension", "rewrite", ["C17", "C18"], F + "doi_data_repositor
 V("c17-rw-doi-get-default", "rewrite", ["C17", "C18"], F + "doi_data_repositories.py",
   "    if doi in _DOI_TO_FAMILY:\n        for family_type in _DOI_TO_FAMILY[doi]:\n            families.append(family_type())\n",
   "    for family_type in _DOI_TO_FAMILY.get(doi, []):\n        families.append(family_type())\n")
+
+# ---- batch 7: behaviour-preserving twins of the seeded changes (the new rules must stay silent on the correct formulation)
+_KALLAY_OLD = """        i_xx = triangle_integrate(lambda t: t[:, 1] ** 2 + t[:, 2] ** 2)
+        i_xy = triangle_integrate(lambda t: -t[:, 0] * t[:, 1])
+        i_xz = triangle_integrate(lambda t: -t[:, 0] * t[:, 2])
+        i_yy = triangle_integrate(lambda t: t[:, 0] ** 2 + t[:, 2] ** 2)
+        i_yz = triangle_integrate(lambda t: -t[:, 1] * t[:, 2])
+        i_zz = triangle_integrate(lambda t: t[:, 0] ** 2 + t[:, 1] ** 2)
+"""
+def _kallay_loop(unpack):
+    return ("        moments = np.empty(3)\n        products = np.empty(3)\n        for a in range(3):\n            b, c = (a + 1) % 3, (a + 2) % 3\n"
+            "            moments[a] = triangle_integrate(lambda t: t[:, b] ** 2 + t[:, c] ** 2)\n"
+            "            products[a] = triangle_integrate(lambda t: -t[:, b] * t[:, c])\n\n"
+            "        i_xx, i_yy, i_zz = moments\n        " + unpack + " = products\n")
+V("c02-rw-kallay-cyclic-loop", "rewrite", "C02", P + "polyhedron.py", _KALLAY_OLD, _kallay_loop("i_yz, i_xz, i_xy"))
+V("c02-kallay-cyclic-loop-mispaired", "fault", "C02", P + "polyhedron.py", _KALLAY_OLD, _kallay_loop("i_xy, i_xz, i_yz"), rule="AXI")
+_CYL_OLD = """            perpendicular_projections = (
+                point_to_edge_starts - edge_projections[:, np.newaxis] * face_edges_norm
+            )
+            cylinder_distances = np.linalg.norm(perpendicular_projections, axis=-1)
+"""
+V("c05-rw-cylinder-distance-cross-unit-edge", "rewrite", ["C05", "C09"], P + "convex_spheropolyhedron.py", _CYL_OLD,
+  "            cylinder_distances = np.linalg.norm(\n                np.cross(point_to_edge_starts, face_edges_norm), axis=-1\n            )\n")
+V("c05-cylinder-distance-cross-raw-edge", "fault", ["C05"], P + "convex_spheropolyhedron.py", _CYL_OLD,
+  "            cylinder_distances = np.linalg.norm(\n                np.cross(point_to_edge_starts, face_edges), axis=-1\n            )\n", rule="IN-3")
+V("c14-rw-edge-length-rolled-forward", "rewrite", "C14", P + "convex_spheropolygon.py",
+  "        v12norm = np.linalg.norm(v12, axis=1)\n        v32norm = np.linalg.norm(v32, axis=1)\n",
+  "        v32norm = np.linalg.norm(v32, axis=1)\n        v12norm = np.roll(v32norm, 1)\n")
+V("c14-edge-length-rolled-backward", "fault", "C14", P + "convex_spheropolygon.py",
+  "        v12norm = np.linalg.norm(v12, axis=1)\n        v32norm = np.linalg.norm(v32, axis=1)\n",
+  "        v32norm = np.linalg.norm(v32, axis=1)\n        v12norm = np.roll(v32norm, -1)\n", rule="RING-1")
+V("c12-rw-density-on-every-part", "rewrite", "C12", P + "polyhedron.py",
+  "        form_factor[zero_q] = self.volume\n", "        form_factor[zero_q] = density * self.volume\n",
+  more=[("            face_form_factors = face_polygon.compute_form_factor_amplitude(q[~zero_q])\n",
+         "            face_form_factors = face_polygon.compute_form_factor_amplitude(\n                q[~zero_q], density\n            )\n"),
+        ("        form_factor *= density\n        return form_factor\n", "        return form_factor\n")])
+V("c12-density-missing-at-zero-q", "fault", "C12", P + "polyhedron.py",
+  "            face_form_factors = face_polygon.compute_form_factor_amplitude(q[~zero_q])\n",
+  "            face_form_factors = face_polygon.compute_form_factor_amplitude(\n                q[~zero_q], density\n            )\n",
+  more=[("        form_factor *= density\n        return form_factor\n", "        return form_factor\n")], rule="FF-1")
+V("c10-rw-ellipsoid-inertia-explicit-vector", "rewrite", "C10", P + "ellipsoid.py",
+  "        i_xx = vol / 5 * (self.b**2 + self.c**2)\n        i_yy = vol / 5 * (self.a**2 + self.c**2)\n        i_zz = vol / 5 * (self.a**2 + self.b**2)\n        inertia_tensor = np.diag([i_xx, i_yy, i_zz])\n",
+  "        sq = np.square([self.a, self.b, self.c])\n        inertia_tensor = np.diag(vol / 5 * np.array([sq[1] + sq[2], sq[0] + sq[2], sq[0] + sq[1]]))\n")
+V("c10-ellipsoid-inertia-total-minus-term", "fault", "C10", P + "ellipsoid.py",
+  "        i_xx = vol / 5 * (self.b**2 + self.c**2)\n        i_yy = vol / 5 * (self.a**2 + self.c**2)\n        i_zz = vol / 5 * (self.a**2 + self.b**2)\n        inertia_tensor = np.diag([i_xx, i_yy, i_zz])\n",
+  "        sq = np.square([self.a, self.b, self.c])\n        inertia_tensor = np.diag(vol / 5 * (sq.sum() - sq))\n", rule="CANCEL-1")
+V("c19-rw-gsd-explicit-default-normal", "rewrite", "C19", "coxeter/shape_getters.py",
+  "                return ConvexPolygon(params[\"vertices\"])\n", "                return ConvexPolygon(params[\"vertices\"], normal=None)\n")
+V("c19-gsd-constant-normal", "fault", "C19", "coxeter/shape_getters.py",
+  "                return ConvexPolygon(params[\"vertices\"])\n", "                return ConvexPolygon(params[\"vertices\"], normal=(0, 0, 1))\n", rule="GSD-1")
+V("c09-rw-sort-simplices-flip-on-negative-volume", "rewrite", ["C09", "C01"], P + "convex_polyhedron.py",
+  "        if self._calculate_signed_volume() < 0:\n", "        signed_volume = self._calculate_signed_volume()\n        if signed_volume < 0:\n")
+V("c09-sort-simplices-flip-isclose-volume", "fault", "C09", P + "convex_polyhedron.py",
+  "        if self._calculate_signed_volume() < 0:\n", "        if not np.isclose(self._calculate_signed_volume(), self._volume):\n", rule="SC-3")
